@@ -1,6 +1,7 @@
 import NgoVerif.Generated.Tables
 import NgoVerif.Meta.Bridge
 import NgoVerif.Meta.Agg
+import NgoVerif.Proofs.C05sem
 /-!
 # C05 — with every trait disabled the rewrite is meaning-preserving for all predicates
 
@@ -81,5 +82,40 @@ theorem C05_oldagg_tags_injective :
     (∀ s : Sign, ∃ p ∈ OLDAGG_SIGN_TAG, p.1 = s) := by
   refine ⟨by decide, by decide, ?_⟩
   intro s; cases s <;> decide
+
+
+/-- **End-to-end for the model function**: `normalize_operators` as modelled in `Model/Normalize.lean` (the function the
+correspondence ties to `normalize.py`) keeps the here-and-there denotation of every body — conditional literals and
+aggregate element conditions included — for every environment, HT pair, comparison relation, arithmetic and aggregate
+semantics, provided no *negated* comparison literal has more than one guard.  Equal denotations for all `(H,T)` is
+strong equivalence: facts over any predicate may be added. -/
+theorem C05_normalize_operators_partial (P : Sem.Params) (G : List String) (e : Sem.Env) (H T : Sem.Interp)
+    (b : List BLit) (hok : Proofs.C05sem.okBody b = true) :
+    Sem.bodySat P G e H T (normalizeOperators b) ↔ Sem.bodySat P G e H T b :=
+  Proofs.C05sem.normalizeOperators_sat P G e H T b hok
+
+/-- … and without that hypothesis the model function does change the denotation (D8): `not 1 < 2 < 0` -/
+theorem C05_normalize_operators_counterexample :
+    ∃ (P : Sem.Params) (G : List String) (e : Sem.Env) (H T : Sem.Interp) (b : List BLit),
+      ¬ (Sem.bodySat P G e H T (normalizeOperators b) ↔ Sem.bodySat P G e H T b) := by
+  let P : Sem.Params := {
+    rel := fun op x y => match op, x, y with
+      | .lt, .num a, .num b => a < b
+      | _, _, _ => False
+    un := fun _ _ => none, bin := fun _ _ _ => none,
+    aggRel := fun _ _ _ _ _ _ => False, oldAggRel := fun _ _ _ _ _ => False }
+  refine ⟨P, [], fun _ => .num 0, fun _ => False, fun _ => False,
+    [.lit (.neg, .cmp (.sym (.num 1)) [⟨.lt, .sym (.num 2)⟩, ⟨.lt, .sym (.num 0)⟩])], ?_⟩
+  intro h
+  have hb : Sem.bodySat P [] (fun _ => .num 0) (fun _ => False) (fun _ => False)
+      [.lit (.neg, .cmp (.sym (.num 1)) [⟨.lt, .sym (.num 2)⟩, ⟨.lt, .sym (.num 0)⟩])] := by
+    intro l hl
+    simp only [List.mem_singleton] at hl
+    subst hl
+    simp [Sem.blitSat, Sem.litSat, Sem.atomSat, Sem.chainHolds, Sem.evalTerm, P]
+  have := h.mpr hb
+  have h1 := this (.lit (.neg, .cmp (.sym (.num 1)) [⟨.lt, .sym (.num 2)⟩]))
+    (by simp [normalizeOperators, expandCmp, cmpList])
+  simp [Sem.blitSat, Sem.litSat, Sem.atomSat, Sem.chainHolds, Sem.evalTerm, P] at h1
 
 end NgoVerif
